@@ -273,7 +273,7 @@ impl Property for C11 {
     }
     fn cases(&self, cfg: &Cfg) -> u64 {
         let nv = short_values().len() as u64;
-        (nv + BLOCK - 1) / BLOCK + cfg.tier.pick(300, 60_000)
+        (nv + BLOCK - 1) / BLOCK + cfg.tier.pick(3_000, 60_000)
     }
     fn run_case(&self, cfg: &Cfg, i: u64, acc: &mut Acc) {
         let tags = tag_table();
